@@ -41,9 +41,9 @@ fn c29_ceil_floor_round_keep_unit() {
     kani::assume(x.is_finite());
     let px = || UnitSet::from(Unit::Px);
     let (c, cu) = parts(snippet_math_ceil(Numeric::new(x, px())));
-    assert!(cu == px() && c == c.trunc() && c >= x && c - x < 1.0, "math.ceil: least integer >= x, unit kept");
+    assert!(cu == px() && c == c.trunc() && c >= x && (c == x || c - 1.0 < x), "math.ceil: least integer >= x, unit kept");
     let (f, fu) = parts(snippet_math_floor(Numeric::new(x, px())));
-    assert!(fu == px() && f == f.trunc() && f <= x && x - f < 1.0, "math.floor: greatest integer <= x, unit kept");
+    assert!(fu == px() && f == f.trunc() && f <= x && (f == x || f + 1.0 > x), "math.floor: greatest integer <= x, unit kept");
     let (r, ru) = parts(snippet_math_round(Numeric::new(x, px())));
     assert!(ru == px() && r == r.trunc() && (r - x).abs() <= 0.5, "math.round: nearest integer, unit kept");
 }
